@@ -357,12 +357,216 @@ fn across_strategy() -> BoxedStrategy<AcrossCase> {
         .boxed()
 }
 
+// ------------------------------------------------------------------------------------------------
+// through the language server: ignore, then keep editing other parts of the file
+
+#[derive(Debug, Clone, Serialize, Deserialize, PartialEq, Eq, Hash)]
+pub struct LsIgnoreCase {
+    /// 0 rust, 1 python, 2 plain text, 3 markdown
+    pub lang: u8,
+    /// which of the published diagnostics is ignored
+    pub sel: u16,
+    /// edits applied one after the other: 0 append a function/definition with a new name, 1 append a
+    /// comment/sentence with another problem, 2 remove the last appended definition, 3 append a
+    /// blank line, 4 prepend a line of code / a clean sentence
+    pub edits: Vec<u8>,
+}
+
+thread_local! {
+    static LS: std::cell::RefCell<Option<(crate::lsp::Sandbox, crate::lsp::Server, crate::lsp::Server, u64)>> = const { std::cell::RefCell::new(None) };
+}
+
+fn ls_base(lang: u8) -> (&'static str, &'static str, String) {
+    match lang % 4 {
+        0 => ("rust", "rs", "// This is an test of teh parser.\nfn main() {}\n\n// It could of been worse, realy, I think.\nfn other() {}\n".to_string()),
+        1 => ("python", "py", "# This is an test of teh parser.\ndef main():\n    pass\n\n# It could of been worse, realy, I think.\nx = 1\n".to_string()),
+        // (no lint within two characters of the start or end of its comment / paragraph: the
+        // break token between two comments starts right where a comment ends; the last paragraph is clean: edits at the end of the file stay more than two characters
+        // away from every lint)
+        2 => ("plaintext", "txt", "Notes follow.\n\nThis is an test of teh parser.\n\nIt could of been worse, realy, I think.\n\nThe end is near.\n".to_string()),
+        _ => ("markdown", "md", "# Notes\n\nThis is an test of teh parser.\n\nIt could of been worse, realy, I think.\n\nThe end is near.\n".to_string()),
+    }
+}
+
+fn ls_edit(lang: u8, kind: u8, k: usize, text: &str, defs: &mut Vec<String>) -> String {
+    let code = matches!(lang % 4, 0 | 1);
+    match kind % 5 {
+        0 => {
+            let d = match lang % 4 {
+                0 => format!("fn helper_{k}() {{}}\n"),
+                1 => format!("def helper_{k}():\n    pass\n"),
+                _ => format!("Helper number {k} is fine.\n"),
+            };
+            defs.push(d.clone());
+            format!("{text}{d}")
+        }
+        1 => match lang % 4 {
+            0 => format!("{text}// We recieve item {k} here.\n"),
+            1 => format!("{text}# We recieve item {k} here.\n"),
+            _ => format!("{text}\nWe recieve item {k} here.\n"),
+        },
+        2 => match defs.pop() {
+            Some(d) => text.replacen(&d, "", 1),
+            None => text.to_string(),
+        },
+        3 => format!("{text}\n"),
+        _ => {
+            if code {
+                match lang % 4 {
+                    0 => format!("use std::fmt;\n\n{text}"),
+                    _ => format!("import os\n\n{text}"),
+                }
+            } else if lang % 4 == 3 {
+                format!("{text}\nAll is well.\n")
+            } else {
+                format!("All is well.\n\n{text}")
+            }
+        }
+    }
+}
+
+/// (message, flagged text, text of the line(s) the lint is on)
+fn diag_identity(text: &str, d: &crate::lsp::Diag) -> (String, String, String) {
+    use crate::oracle::lsp_pos::{Pos, pos_to_index};
+    let cs: Vec<char> = text.chars().collect();
+    let a = pos_to_index(&cs, Pos { line: d.start.0, col: d.start.1 });
+    let b = pos_to_index(&cs, Pos { line: d.end.0, col: d.end.1 }).max(a);
+    let flagged: String = cs[a..b.min(cs.len())].iter().collect();
+    let lines: Vec<&str> = text.split('\n').collect();
+    let line = lines.get(d.start.0 as usize).copied().unwrap_or("").to_string();
+    (d.message.clone(), flagged, line)
+}
+
+pub fn test_ls_ignore(c: &LsIgnoreCase, ctx: &mut CaseCtx) -> Result<(), String> {
+    use serde_json::json;
+    let (lang, ext, base) = ls_base(c.lang);
+    let res: Result<Result<(), String>, crate::lsp::LspError> = LS.with(|slot| {
+        let mut slot = slot.borrow_mut();
+        if slot.is_none() {
+            let sb = crate::lsp::Sandbox::new("c14");
+            let s = crate::lsp::Server::start(&sb, sb.settings(json!({})), None)?;
+            let r = crate::lsp::Server::start(&sb, sb.settings(json!({})), None)?;
+            *slot = Some((sb, s, r, 0));
+        }
+        let out = (|| {
+            let (sb, srv, fresh, n) = slot.as_mut().unwrap();
+            *n += 1;
+            let name = format!("ign{n}.{ext}");
+            let uri = sb.uri(&name);
+            let ref_uri = sb.uri(&format!("ref{n}.{ext}"));
+            std::fs::write(sb.ws_file(&name), &base).map_err(|e| crate::lsp::LspError::Protocol(e.to_string()))?;
+            let d0 = srv.open(&uri, lang, &base)?;
+            if d0.is_empty() {
+                srv.close(&uri)?;
+                return Ok(Err("the base document has no diagnostics".to_string()));
+            }
+            let pick = d0[crate::core::pick_idx(c.sel, d0.len())].clone();
+            let ident = diag_identity(&base, &pick);
+            // the ignore command an editor would send: taken from the code actions
+            let acts = srv.code_actions(&uri, pick.start, pick.end)?;
+            let lint = acts.as_array().and_then(|a| {
+                a.iter()
+                    .filter(|x| x["command"].as_str() == Some("HarperIgnoreLint"))
+                    .map(|x| x["arguments"][1].clone())
+                    .find(|l| l["message"].as_str() == Some(pick.message.as_str()))
+            });
+            let Some(lint) = lint else {
+                srv.close(&uri)?;
+                return Ok(Err(format!("no ignore action offered for diagnostic {:?}", pick.message)));
+            };
+            let after = srv.execute_and_publish("HarperIgnoreLint", json!([uri, lint]), &uri)?;
+            let mut text = base.clone();
+            let mut version = 1;
+            let mut defs = vec![];
+            let mut check = |text: &str, got: &[crate::lsp::Diag], fresh: &mut crate::lsp::Server, what: &str| -> Result<Result<(), String>, crate::lsp::LspError> {
+                let all = fresh.open(&ref_uri, lang, text)?;
+                fresh.close(&ref_uri)?;
+                let render = |text: &str, v: &[crate::lsp::Diag]| {
+                    let mut o: Vec<String> = v.iter().map(|d| format!("{:?}-{:?} {}", d.start, d.end, d.message)).collect();
+                    o.sort();
+                    let _ = text;
+                    o
+                };
+                let want: Vec<crate::lsp::Diag> = all.iter().filter(|d| diag_identity(text, d) != ident).cloned().collect();
+                if want.len() == all.len() {
+                    return Ok(Err(format!("{what}: a server that ignored nothing no longer reports the lint {:?} on {:?} (the edit touched it?)", ident.0, ident.1)));
+                }
+                let (g, w) = (render(text, got), render(text, &want));
+                if g != w {
+                    return Ok(Err(format!(
+                        "{what}: the lint {:?} on {:?} (line {:?}) was ignored; the server now publishes {:?}, expected everything a server without ignored lints reports except that lint: {:?}",
+                        ident.0, ident.1, ident.2, g, w
+                    )));
+                }
+                Ok(Ok(()))
+            };
+            if let Err(e) = check(&text, &after, fresh, "right after the ignore command")? {
+                srv.close(&uri)?;
+                return Ok(Err(e));
+            }
+            for (k, e) in c.edits.iter().enumerate() {
+                let next = ls_edit(c.lang, *e, k, &text, &mut defs);
+                if next == text {
+                    continue;
+                }
+                text = next;
+                version += 1;
+                let got = srv.change(&uri, version, &text)?;
+                if let Err(err) = check(&text, &got, fresh, &format!("after edit #{k} (kind {})", e % 5))? {
+                    srv.close(&uri)?;
+                    return Ok(Err(err));
+                }
+            }
+            srv.close(&uri)?;
+            Ok(Ok(()))
+        })();
+        if out.is_err() {
+            *slot = None;
+        }
+        out
+    });
+    ctx.class(format!("lang:{}", ls_base(c.lang).0));
+    ctx.class_if(c.edits.iter().any(|e| e % 5 == 0) && c.lang % 4 < 2, "identifier_added_after_ignore");
+    ctx.class_if(c.edits.iter().any(|e| e % 5 == 4), "text_prepended_after_ignore");
+    if !c.edits.is_empty() {
+        ctx.nontrivial(c);
+    }
+    match res {
+        Ok(r) => r,
+        Err(e) => {
+            ctx.infra(e);
+            Ok(())
+        }
+    }
+}
+
 pub fn run(run: &mut Run) {
+    {
+        let shrink = run.max_shrink_iters;
+        let threads = run.threads;
+        run.max_shrink_iters = 60;
+        run.threads = run.threads.min(8);
+        let n = run.n(120, 3_000);
+        run.prop(
+            "language_server_ignore",
+            n,
+            || {
+                (0u8..4, any::<u16>(), proptest::collection::vec(0u8..5, 1..6))
+                    .prop_map(|(lang, sel, edits)| LsIgnoreCase { lang, sel, edits })
+                    .boxed()
+            },
+            test_ls_ignore,
+        );
+        run.require_class("language_server_ignore", "identifier_added_after_ignore", (n / 6) as u64);
+        run.require_class("language_server_ignore", "text_prepended_after_ignore", (n / 6) as u64);
+        run.max_shrink_iters = shrink;
+        run.threads = threads;
+    }
     let n = run.n(3_000, 150_000);
     run.prop("ignore_across_texts", n, across_strategy, test_across);
     run.require_class("ignore_across_texts", "same_lint_other_neighbour", (n / 10) as u64);
     run.require_class("ignore_across_texts", "same_lint_other_neighbour_at_document_start", (n / 20) as u64);
-    run.rule = "documents biased to repeated problems (the same error 2-3 times with equal or different neighbours, optionally next to quotes/brackets) plus G-TEXT documents, plain and Markdown, curated rules; a random subset of the lints is ignored; then (b) the ignore list goes through JSON and (c) a paragraph is prepended and/or appended (with/without quotes). Oracle uses an independent identity: equal kind/message/suggestions/priority and equal texts of the tokens intersecting the span, the 2 chars before and the 2 chars after. ignore_across_texts: the same problem embedded in two texts that differ right next to it (0-3 characters between the document start and the lint, other punctuation after it, plain vs Markdown); every lint of the first text is ignored, and in the second text only lints with the same identity may be hidden. Non-trivial = something ignored and (two lints with equal fields but different neighbourhoods, or a quote in a neighbourhood, or text prepended).".into();
+    run.rule = "documents biased to repeated problems (the same error 2-3 times with equal or different neighbours, optionally next to quotes/brackets) plus G-TEXT documents, plain and Markdown, curated rules; a random subset of the lints is ignored; then (b) the ignore list goes through JSON and (c) a paragraph is prepended and/or appended (with/without quotes). Oracle uses an independent identity: equal kind/message/suggestions/priority and equal texts of the tokens intersecting the span, the 2 chars before and the 2 chars after. language_server_ignore: the real harper-ls on Rust, Python, plain-text and Markdown files: one published diagnostic is ignored through the command its code action carries, then 1-5 edits elsewhere in the file (new definitions = new identifiers, further comments with other problems, removals, blank lines, a prepended line); after every step the publication must be what a second server that ignored nothing publishes for the same text, minus exactly that lint. ignore_across_texts: the same problem embedded in two texts that differ right next to it (0-3 characters between the document start and the lint, other punctuation after it, plain vs Markdown); every lint of the first text is ignored, and in the second text only lints with the same identity may be hidden. Non-trivial = something ignored and (two lints with equal fields but different neighbourhoods, or a quote in a neighbourhood, or text prepended).".into();
     let n = run.n(3_000, 150_000);
     run.prop("ignore_and_edit", n, ignore_strategy, test_ignore);
     run.require_class("ignore_and_edit", "equal_fields_different_neighbourhood", (n / 10) as u64);
@@ -371,6 +575,10 @@ pub fn run(run: &mut Run) {
 }
 
 pub fn replay(check: &str, case: Value, _run: &mut Run) -> Result<(), String> {
+    if check == "language_server_ignore" {
+        let c: LsIgnoreCase = serde_json::from_value(case).map_err(|e| e.to_string())?;
+        return test_ls_ignore(&c, &mut CaseCtx::default());
+    }
     if check == "ignore_across_texts" {
         let c: AcrossCase = serde_json::from_value(case).map_err(|e| e.to_string())?;
         return test_across(&c, &mut CaseCtx::default());
